@@ -270,6 +270,25 @@ pub fn nested_case() -> Case {
             for i in 0..xa.len().min(eo.len()) {
                 ctx.claim(&format!("optional-add[{}]", i), Th::Fp, B::Same(eo[i], xa[i] + xb[i]));
             }
+            // nested lists refuse operands whose shapes differ — in the outer length or in any inner tensor
+            let k = |v: f32, n: usize| t1(&(0..n).map(|i| lit(v + i as f32)).collect());
+            let m = |v: f32, r: usize, c: usize| t2(&(0..r).map(|i| (0..c).map(|j| lit(v + (i * c + j) as f32)).collect()).collect());
+            let c3 = |v: f32, a: usize, b: usize, c: usize| t3(&(0..a).map(|i| (0..b).map(|j| (0..c).map(|l| lit(v + (i * b * c + j * c + l) as f32)).collect()).collect()).collect());
+            let pairs: Vec<(&str, Tensor, Tensor)> = vec![
+                ("outer-length", Tensor::nested(vec![k(1.0, 2), k(2.0, 2)]), Tensor::nested(vec![k(1.0, 2)])),
+                ("inner-vector-3-vs-2", Tensor::nested(vec![k(1.0, 2), k(2.0, 3)]), Tensor::nested(vec![k(1.0, 2), k(2.0, 2)])),
+                ("inner-matrix-2x3-vs-2x2", Tensor::nested(vec![m(1.0, 2, 3)]), Tensor::nested(vec![m(1.0, 2, 2)])),
+                ("inner-matrix-2x2-vs-3x2", Tensor::nested(vec![k(0.0, 1), m(1.0, 2, 2)]), Tensor::nested(vec![k(0.0, 1), m(1.0, 3, 2)])),
+                ("inner-3d-1x2x2-vs-1x2x3", Tensor::nested(vec![c3(1.0, 1, 2, 2)]), Tensor::nested(vec![c3(1.0, 1, 2, 3)])),
+                ("optional-inner-vector-3-vs-2", Tensor::nestedoptional(vec![Some(k(1.0, 3)), None]), Tensor::nestedoptional(vec![Some(k(1.0, 2)), None])),
+            ];
+            for (name, a, b) in pairs.into_iter() {
+                let res = ctx.catch(move |_| {
+                    let mut a = a;
+                    a.add_inplace(&b);
+                });
+                ctx.fact(&format!("nested-add-{}-refused", name), res.is_err(), "nested operands of different shapes were combined".into());
+            }
         }),
     }
 }
